@@ -156,11 +156,11 @@ func runC18(c *Ctx) {
 					inLoop = true
 				}
 			}
-			ff := c.F.Analyze(f)
 			if inLoop {
-				R.Ob(c.siteKey(in, "per-recipient replies read iff the client speaks LMTP"), c.P.InstrPos(in), ff.At(in)["Client.lmtp == true"], fmt.Sprintf("the per-recipient reply loop is not selected by Client.lmtp (facts: %v): a writer obtained through Data() on an LMTP client reads a single reply and leaves the others in the stream", ff.At(in).list()))
+				c.obUnreach("per-recipient replies read although the client speaks SMTP", in, `Client.lmtp == false`)
 			} else {
-				R.Ob(c.siteKey(in, "single reply read iff the client speaks SMTP"), c.P.InstrPos(in), ff.At(in)["Client.lmtp == false"], fmt.Sprintf("the single-reply exchange is not selected by Client.lmtp == false (facts: %v)", ff.At(in).list()))
+				// (the length hypothesis is trivially true; it lets a redundant "count >= 0" guard be decided)
+				c.obUnreach("single reply read although the client speaks LMTP", in, `Client.lmtp == true`, `builtin:len(Client.rcpts) >= 0`)
 			}
 		})
 		R.Ob("(*dataCloser).Close/reads replies", c.P.Pos(f.Pos()), nRd >= 2, "expected a reply loop and a single read")
